@@ -451,9 +451,7 @@ func Palette(size int) []Field {
 			p = append(p, fld(e, Plain))
 		}
 		for _, e := range baseScalars[:6] {
-			if e.Kind != Bytes {
-				p = append(p, fld(e, Ptr))
-			}
+			p = append(p, fld(e, Ptr))
 			p = append(p, fld(e, Slice))
 		}
 		p = append(p, mp(String, sc(Int32)), mp(String, sc(String)), mp(Int32, sc(Bytes)), mp(Bool, sc(Bool)), mp(Uint64, sc(Float64)), mp(Int64, sc(String)))
@@ -470,12 +468,15 @@ func Palette(size int) []Field {
 			p = append(p, fld(e, Plain))
 		}
 		for _, e := range baseScalars {
-			if e.Kind != Bytes && e.Kind != ByteArray { // *[]byte and *[N]byte are outside the statement ("pointer-to structs and scalars")
+			if e.Kind != ByteArray { // *[N]byte is outside the statement ("pointer-to structs and scalars"); *[]byte is an optional bytes field
 				p = append(p, fld(e, Ptr))
 			}
 			p = append(p, fld(e, Slice))
 		}
 		for _, e := range taggedScalars[:7] {
+			p = append(p, fld(e, Ptr), fld(e, Slice))
+		}
+		for _, e := range taggedScalars[9:] { // sfixed32 / sfixed64
 			p = append(p, fld(e, Ptr), fld(e, Slice))
 		}
 		for _, v := range []Elem{sc(Int32), sc(String), sc(Bytes), sc(Bool), sc(Float64), sc(Uint64), sc(Int64), sc(Float32), arr(8)} {
